@@ -200,21 +200,76 @@ fn has_escape_other(raw: &str) -> bool {
     false
 }
 
-/// The part of a reported path from the first step at which it departs from the Normalized Path
-/// of the node it was reported for (None if it does not depart).
-fn departing_tail<'p>(reported: &'p str, want: &str) -> Option<&'p str> {
+/// What a quoted selector's inner text denotes (RFC 9535 escapes).
+fn rfc_unescape(raw: &str) -> Option<String> {
+    let cs: Vec<char> = raw.chars().collect();
+    let mut out = String::new();
+    let mut i = 0;
+    while i < cs.len() {
+        if cs[i] != '\\' {
+            out.push(cs[i]);
+            i += 1;
+            continue;
+        }
+        i += 1;
+        let e = *cs.get(i)?;
+        i += 1;
+        match e {
+            'b' => out.push('\u{8}'),
+            'f' => out.push('\u{c}'),
+            'n' => out.push('\n'),
+            'r' => out.push('\r'),
+            't' => out.push('\t'),
+            '/' | '\\' | '\'' | '"' => out.push(e),
+            'u' => {
+                let h: String = cs.get(i..i + 4)?.iter().collect();
+                i += 4;
+                let mut code = u32::from_str_radix(&h, 16).ok()?;
+                if (0xD800..0xDC00).contains(&code) {
+                    if cs.get(i) != Some(&'\\') || cs.get(i + 1) != Some(&'u') {
+                        return None;
+                    }
+                    let l: String = cs.get(i + 2..i + 6)?.iter().collect();
+                    i += 6;
+                    let lo = u32::from_str_radix(&l, 16).ok()?;
+                    code = 0x10000 + ((code - 0xD800) << 10) + (lo.checked_sub(0xDC00)?);
+                }
+                out.push(char::from_u32(code)?);
+            }
+            _ => return None,
+        }
+    }
+    Some(out)
+}
+
+/// The part of a reported path from the first step at which it departs from the node's location
+/// in a way that matters (None if it does not depart). A step that is the echo of one of the
+/// query's own single-quoted selectors and denotes the same member name (`['a\/b']` for `a/b`) is a
+/// different spelling of the same step, not a departure.
+fn departing_tail<'p>(reported: &'p str, want: &str, lits: &[(char, String)]) -> Option<&'p str> {
     let loc = npath::parse(want)?;
     let mut pos = 1;
     if !reported.starts_with('$') {
         return Some(reported);
     }
-    for st in &loc {
+    'steps: for st in &loc {
         let t = &npath::render(std::slice::from_ref(st))[1..];
         if reported[pos..].starts_with(t) {
             pos += t.len();
-        } else {
-            return Some(&reported[pos..]);
+            continue;
         }
+        if let Step::Name(name) = st {
+            for (qc, raw) in lits {
+                if *qc == '\'' {
+                    let echo = format!("['{}']", raw);
+                    if reported[pos..].starts_with(&echo) && rfc_unescape(raw).as_deref() == Some(name.as_str()) {
+                        pos += echo.len();
+                        continue 'steps;
+                    }
+                }
+            }
+        }
+        return Some(&reported[pos..]);
     }
     if pos == reported.len() {
         None
@@ -231,8 +286,8 @@ pub fn kf_match<'a>(v: &Viol, findings: &'a [Finding]) -> Option<&'a Finding> {
         return None;
     }
     let (Some(q), Some(want)) = (&v.q, &v.want_path) else { return None };
-    let tail = departing_tail(&v.path, want)?;
     let lits = string_literals(q);
+    let tail = departing_tail(&v.path, want, &lits)?;
     for f in findings {
         if f.status != "open" {
             continue;
@@ -522,6 +577,9 @@ fn spell_steps(rng: &mut Rng, model: &Value, loc: &[Step], fancy: bool) -> Strin
                     s.push_str(n);
                 } else if k == 2 {
                     s.push_str(&format!("[{}]", quote_double(n)));
+                } else if n.contains('/') && rng.chance(1, 3) {
+                    // the other legal spelling of a solidus
+                    s.push_str(&format!("[{}]", quote_single(n).replace('/', "\\/")));
                 } else {
                     s.push_str(&format!("[{}]", quote_single(n)));
                 }
@@ -563,6 +621,8 @@ fn gen_query(rng: &mut Rng, model: &Value, names: &[String]) -> String {
     let name_sel = |rng: &mut Rng, n: &str| -> String {
         if fancy && rng.chance(1, 3) {
             quote_double(n)
+        } else if n.contains('/') && rng.chance(1, 3) {
+            quote_single(n).replace('/', "\\/")
         } else {
             quote_single(n)
         }
@@ -692,7 +752,25 @@ fn gen_miss(rng: &mut Rng, model: &Value, stats: &mut Stats) -> Loc {
                     kind = "name_step_on_array";
                 }
             },
-            Value::Object(o) => match rng.below(3) {
+            Value::Object(o) => match rng.below(4) {
+                3 => {
+                    // the name an existing member's name would denote if its backslash sequences were
+                    // escapes (member `it\'s` present, `it's` absent): a resolver that falls back to the
+                    // text as written turns this miss into a hit on the sibling
+                    let mut found = None;
+                    for k in o.keys() {
+                        let un = k.replace("\\'", "'").replace("\\\"", "\"").replace("\\n", "\n").replace("\\t", "\t").replace("\\\\", "\\");
+                        if un != *k && !o.contains_key(&un) {
+                            found = Some(un);
+                            break;
+                        }
+                    }
+                    match found {
+                        Some(n) => loc.push(Step::Name(n)),
+                        None => loc.push(Step::Name("absent".into())),
+                    }
+                    kind = "unescaped_image_of_a_sibling";
+                }
                 0 => {
                     let mut n = rng.pick(gen::NAMES_ADV).to_string();
                     let mut g = 0;
@@ -748,7 +826,9 @@ pub fn gen_doc(rng: &mut Rng) -> Value {
     if rng.chance(1, 3) {
         let mut o = Map::new();
         let base = rng.pick(&["a/b", "a~1b", "~", "/", "x\\y", "'", "\n", "\"a\"", "0", "a'b"]).to_string();
-        o.insert(base.clone(), gen::scalar(rng));
+        if rng.chance(2, 3) {
+            o.insert(base.clone(), gen::scalar(rng));
+        }
         for alt in [base.replace('/', "~1"), base.replace("~1", "/"), base.replace('\n', "\\n"), base.replace('\'', "\\'"), base.replace('\\', "\\\\"), format!("'{}'", base), format!("\"{}\"", base)] {
             if rng.chance(1, 2) {
                 o.entry(alt).or_insert_with(|| gen::scalar(rng));
